@@ -330,8 +330,14 @@ func checkC16(c *Ctx) {
 			f("random:"+strings.Join(seq, "+"), []byte(out.String()))
 		}
 	}
-	run(rAlpha, func(kind string, out []byte) { c.c16Recipient(pe, allUI, kind, out) })
-	run(iAlpha, func(kind string, out []byte) { c.c16Identity(pe, allUI, kind, out, hdr) })
+	run(rAlpha, func(kind string, out []byte) {
+		what := guarded(func() { c.c16Recipient(pe, allUI, kind, out) })
+		c.Oracle("client-never-panics-on-plugin-output", what == "", "plugin-client-panic", map[string]interface{}{"machine": "recipient-v1", "plugin_output": string(out)}, what)
+	})
+	run(iAlpha, func(kind string, out []byte) {
+		what := guarded(func() { c.c16Identity(pe, allUI, kind, out, hdr) })
+		c.Oracle("client-never-panics-on-plugin-output", what == "", "plugin-client-panic", map[string]interface{}{"machine": "identity-v1", "plugin_output": string(out)}, what)
+	})
 	c.exhaustive = true
 	// UI commands x callback availability
 	for _, m := range []string{"nil", "ok", "fail"} {
